@@ -8,5 +8,6 @@ export CARGO_NET_OFFLINE=true
 command -v cargo >/dev/null
 cargo kani --version >/dev/null
 mkdir -p work evidence
+( cd tools/cfgscan && cargo build --release --offline --target-dir ../../work/target-cfgscan >/dev/null 2>&1 ) || echo "warning: cfgscan pre-build failed (the checks will retry)"
 ( cd tools/expander && cargo build --release --offline --target-dir ../../work/target-expander >/dev/null 2>&1 ) || echo "warning: expander pre-build failed (the checks will retry)"
 echo "setup ok"
